@@ -69,6 +69,17 @@ let model_int cfg st =
   let all = es @ ls in
   if all = [] then "-" else String.concat " " all
 
+(* the trace of the emitting signal's internal data at every slot entry (<) and exit (>) *)
+let snap_str (((entry, e), sg), sdo) =
+  let head = Printf.sprintf "%s%d.%d:" (if entry then "<" else ">") (i e) (i sg) in
+  match sdo with
+  | None -> head ^ "x"
+  | Some sd ->
+      head ^ String.concat "," (List.map (fun x -> Printf.sprintf "%d.%d%s" (i x.s_recv) (i x.s_slot) (st_char x.s_state)) sd.sd_slots)
+      ^ (if sd.sd_dirty then ":1:" else ":0:")
+      ^ String.concat "" (List.map (fun a -> if a.a_inval then "1" else "0") sd.sd_acts)
+let trace_str tr = if tr = [] then "-" else String.concat " " (List.rev_map snap_str tr)
+
 (* ---- spec dump ---- *)
 let spec_pub cfg st =
   let es = List.map (fun e ->
@@ -93,8 +104,8 @@ let () =
          | None, _ -> (cfg, None)
          | Some st, "def" :: l :: s :: a -> add_def cfg (int_of_string l) (int_of_string s) (parse_action a); emit "def"; (cfg, Some st)
          | Some st, _ ->
-           (match step (sc cfg) (n cfg.maxd) fuel st (parse_action toks) with
-            | Done (st', lg) -> emit (Printf.sprintf "%s | %s | %s" (log_str lg) (model_pub cfg st') (model_int cfg st')); (cfg, Some st')
+           (match step_tr (sc cfg) (n cfg.maxd) fuel st (parse_action toks) with
+            | Done ((st', lg), tr) -> emit (Printf.sprintf "%s | %s | %s | %s" (log_str lg) (model_pub cfg st') (model_int cfg st') (trace_str tr)); (cfg, Some st')
             | OutOfFuel _ -> emit "! fuel"; (cfg, None)
             | Fail _ -> emit "! uaf"; (cfg, None)))
       (fun _ -> ())
